@@ -301,8 +301,20 @@ def _check_body(ctx, res) -> None:
                 "a resource that was not announced")
     comp = common.composite_change(idx)
     gcr = comp.methods.get("get_changed_resources")
-    ok = gcr is not None and any(isinstance(l, ast.For) and any(call_name(x) == "get_changed_resources" for x in calls_in(l))
-                                 for l in walk_local(gcr.node))
+    # some iteration over the children -- a for loop, a comprehension / generator (also as the argument of chain / union /
+    # update), map() -- asks each child for its resources
+    ok = False
+    if gcr is not None:
+        for l in ast.walk(gcr.node):
+            tgt = None
+            if isinstance(l, (ast.For, ast.comprehension)) and isinstance(l.target, ast.Name):
+                tgt = l.target.id
+                scope = l if isinstance(l, ast.For) else gcr.node
+                if any(isinstance(x, ast.Call) and call_name(x) == "get_changed_resources" and isinstance(x.func, ast.Attribute)
+                       and isinstance(x.func.value, ast.Name) and x.func.value.id == tgt for x in ast.walk(scope)):
+                    ok = True
+            if isinstance(l, ast.Call) and call_name(l) == "map" and l.args and isinstance(l.args[0], ast.Attribute) and l.args[0].attr == "get_changed_resources":
+                ok = True
     res.add("R09.3", comp.name, ok, (gcr or comp).where,
             "the composite announces the union of its children's resources" if ok else
             "the composite change does not collect get_changed_resources() of all sub-changes")
